@@ -72,6 +72,11 @@ type SiteRes struct {
 	FinalDiff string `json:"final_diff,omitempty"`
 	WriterErr string `json:"writer_err,omitempty"`
 	Harness   string `json:"harness,omitempty"`
+	// the second reader of the same parked site: data entries of the L2 cache and the L1 node / handle
+	// caches evicted first (locks kept), so it reads the registry, store info and blobs from disk
+	ColdRead    bool   `json:"cold_read,omitempty"`
+	ColdEvicted int    `json:"cold_evicted_keys,omitempty"`
+	ColdDiff    string `json:"cold_read_diff,omitempty"`
 }
 
 type RoundRes struct {
@@ -310,7 +315,7 @@ func round(i int, seed int64, extra []string) any {
 		done := make(chan error, 1)
 		go func() { done <- wt.Commit(ctx) }()
 		var werr error
-		var pendingGot *sopx.Dump
+		var pendingGot, pendingCold *sopx.Dump
 		finished := false
 		select {
 		case <-p.Paused:
@@ -332,16 +337,22 @@ func round(i int, seed int64, extra []string) any {
 				pendingGot = &got
 			} else if sr.Phase == "flip-window" {
 				sr.Expect = "before-or-after"
-				if d1 := txn.DiffContent(got, before.Dump()); d1 != "" {
-					if d2 := txn.DiffContent(got, after.Dump()); d2 != "" {
-						sr.ReadDiff = "neither before nor after: vs before: " + d1 + " || vs after: " + d2
-						if strings.Contains(d1, "COUNT-ONLY") {
-							sr.ReadDiff = d1 // items are the pre-writer items, only the count is off
-						}
-					}
-				}
+				sr.ReadDiff = eitherDiff(got, before, after)
 			} else {
 				sr.ReadDiff = txn.DiffContent(got, expect.Dump())
+			}
+			// the same site again with cold caches (entries expired / evicted, lock records kept)
+			if l2, ok := sop.GetL2Cache(sop.TransactionOptions{CacheType: sop.InMemory}).(*deco.L2); ok && !hung.Load() {
+				sr.ColdEvicted = l2.Cool(ctx)
+				cgot := read(db, c.Reader)
+				sr.ColdRead = true
+				if sr.Phase == "flip-window" && c.Outcome == "fail" {
+					pendingCold = &cgot
+				} else if sr.Phase == "flip-window" {
+					sr.ColdDiff = eitherDiff(cgot, before, after)
+				} else {
+					sr.ColdDiff = txn.DiffContent(cgot, expect.Dump())
+				}
 			}
 			p.Resume()
 			select {
@@ -361,22 +372,22 @@ func round(i int, seed int64, extra []string) any {
 			sr.WriterErr = werr.Error()
 		}
 		if pendingGot != nil {
+			// a writer that failed inside its commit-point call and rolled back: what the reader saw
+			// meanwhile must not have come from that (failed) transaction; a tolerated failure (e.g. a
+			// cache refresh) means the writer committed: before or after
+			sr.Expect = "before-or-after"
 			if werr != nil {
-				// the writer failed inside its commit-point call and rolled back: what the reader saw
-				// meanwhile must not have come from that (failed) transaction
 				sr.Expect = "before"
 				sr.ReadDiff = txn.DiffContent(*pendingGot, before.Dump())
 			} else {
-				// the failure was tolerated (e.g. a cache refresh): the writer committed
-				sr.Expect = "before-or-after"
-				if d1 := txn.DiffContent(*pendingGot, before.Dump()); d1 != "" {
-					if d2 := txn.DiffContent(*pendingGot, after.Dump()); d2 != "" {
-						sr.ReadDiff = "neither before nor after: vs before: " + d1 + " || vs after: " + d2
-						if strings.Contains(d1, "COUNT-ONLY") {
-							sr.ReadDiff = d1
-						}
-					}
-				}
+				sr.ReadDiff = eitherDiff(*pendingGot, before, after)
+			}
+		}
+		if pendingCold != nil {
+			if werr != nil {
+				sr.ColdDiff = txn.DiffContent(*pendingCold, before.Dump())
+			} else {
+				sr.ColdDiff = eitherDiff(*pendingCold, before, after)
 			}
 		}
 		// after the writer ended: committed => after, aborted => before (C03's "after it aborts" clause)
@@ -392,6 +403,36 @@ func round(i int, seed int64, extra []string) any {
 		}
 	}
 	return res
+}
+
+// clsOf is the class the warm reader's diff was reported under ("" when it had none).
+func clsOf(s SiteRes) string {
+	switch {
+	case s.ReadDiff == "":
+		return ""
+	case strings.Contains(s.ReadDiff, "COUNT-ONLY"):
+		return "dirty-read-count"
+	case strings.Contains(s.ReadDiff, "unreadable"):
+		return "reader-failed"
+	}
+	return "dirty-read-items"
+}
+
+// eitherDiff is empty when got equals before or after; otherwise it says how it differs from both (or,
+// when only the count is off against the pre-writer items, just that).
+func eitherDiff(got sopx.Dump, before, after txn.Model) string {
+	d1 := txn.DiffContent(got, before.Dump())
+	if d1 == "" {
+		return ""
+	}
+	d2 := txn.DiffContent(got, after.Dump())
+	if d2 == "" {
+		return ""
+	}
+	if strings.Contains(d1, "COUNT-ONLY") {
+		return d1 // items are the pre-writer items, only the count is off
+	}
+	return "neither before nor after: vs before: " + d1 + " || vs after: " + d2
 }
 
 func Run(r *report.Run) int {
@@ -446,6 +487,30 @@ func Run(r *report.Run) int {
 					cls = "committed-not-yet-visible-" + cls
 				}
 				r.Violation(fmt.Sprintf("C03:%s:%s/%s/%s:%s", res.Combo.Shape, label, s.Phase, res.Combo.Outcome, cls), map[string]any{"combo": res.Combo, "site": s, "program": res.Program})
+			}
+			if s.ColdRead {
+				r.Count("cold_reads_while_writer_parked:"+s.Phase, 1)
+				r.Count("cold_evicted_l2_keys", int64(s.ColdEvicted))
+			}
+			if s.ColdDiff != "" && s.ColdDiff != s.ReadDiff {
+				cls := "dirty-read-items"
+				if strings.Contains(s.ColdDiff, "COUNT-ONLY") {
+					cls = "dirty-read-count"
+				} else if strings.Contains(s.ColdDiff, "unreadable") {
+					cls = "reader-failed"
+				}
+				if s.Phase == "after-commit-point" {
+					cls = "committed-not-yet-visible-" + cls
+				}
+				if s.ReadDiff == "" || !strings.HasSuffix(clsOf(s), cls) {
+					sig := fmt.Sprintf("C03:%s:%s/%s/%s:%s", res.Combo.Shape, label, s.Phase, res.Combo.Outcome, cls)
+					if s.Phase == "flip-window" {
+						// every site between the first and the last block write of the commit-point call is
+						// the same window for a reader that goes to disk: one signature for all of them
+						sig = fmt.Sprintf("C03:%s:cold-caches/flip-window:%s", res.Combo.Shape, cls)
+					}
+					r.Violation(sig, map[string]any{"combo": res.Combo, "site": s, "program": res.Program, "reader": "cold caches"})
+				}
 			}
 			if s.FinalDiff != "" {
 				cls := "aborted-writes-visible"
@@ -512,6 +577,6 @@ func Run(r *report.Run) int {
 	return r.Finish(rule, assumptions, 50)
 }
 
-const rule = "writer programs (shapes with updated nodes: S6 updates, S4 split, S7 removes; thorough adds S2,S3,S5,S8) on the mirror path are parked, one run per site, at EVERY decorator call site of their commit; while the writer is parked a reader transaction of another session (public path, ForReading; thorough also NoCheck) scans the store and reads Count(); it must see the pre-writer state at every site up to and including the commit-point call reg.UpdateNoLocks(true), the post state after it, and either inside the block-write window of that call when the writer goes on to commit, and the pre-writer state there too when the writer is about to fail in that window; then the writer resumes and commits, or resumes into an injected failure and rolls back, and a later reader must see after / before; fingerprint = (shape, profile, outcome, reader mode, site); non-trivial = the reader completed while the writer was parked. IN-FLIGHT half: one process per round with a 2-4 entry L1 node cache (optionally the L2 cache cleared and the store re-scanned first, so cached nodes came through the blob-load path); a public-path writer runs its whole program and stays open while a reader of another session scans the store (must see the pre-writer state), then rolls back or commits and a reader must see before / after"
+const rule = "writer programs (shapes with updated nodes: S6 updates, S4 split, S7 removes; thorough adds S2,S3,S5,S8) on the mirror path are parked, one run per site, at EVERY decorator call site of their commit; while the writer is parked a reader transaction of another session (public path, ForReading; thorough also NoCheck) scans the store and reads Count(); it must see the pre-writer state at every site up to and including the commit-point call reg.UpdateNoLocks(true), the post state after it, and either inside the block-write window of that call when the writer goes on to commit, and the pre-writer state there too when the writer is about to fail in that window; then the writer resumes and commits, or resumes into an injected failure and rolls back, and a later reader must see after / before; at every parked site a SECOND reader runs after every data entry (nodes, values, handles, store infos) was evicted from the L2 cache and the process-wide L1 node and handle caches (lock records kept), so it resolves the store from the registry file, store info file and blobs on disk, and is judged against the same expectation; fingerprint = (shape, profile, outcome, reader mode, site); non-trivial = the reader completed while the writer was parked. IN-FLIGHT half: one process per round with a 2-4 entry L1 node cache (optionally the L2 cache cleared and the store re-scanned first, so cached nodes came through the blob-load path); a public-path writer runs its whole program and stays open while a reader of another session scans the store (must see the pre-writer state), then rolls back or commits and a reader must see before / after"
 
-var assumptions = []string{"mirror-path writer, public-path reader, same process (shared L1/L2 caches)", "standalone in-memory L2", "shapes without an updated node (first root of an empty store) are excluded: their commit point is not the flip call"}
+var assumptions = []string{"mirror-path writer, public-path reader, same process (shared L1/L2 caches); the cold reader's eviction removes data entries only (what TTL expiry / capacity eviction does), never lock records", "standalone in-memory L2", "shapes without an updated node (first root of an empty store) are excluded: their commit point is not the flip call"}
